@@ -221,16 +221,13 @@ share("C11", "C11.R8", in_scope_map_reaches_resolvers)
 @rule("C11.R9")
 def tail_read_after_it_is_complete(ctx: Ctx) -> None:
     """A streaming handler must not read element.tail during the element's own END event (the tail is only complete at the next event)."""
-    from .c08 import _branches, _normalised_event_loop
+    from .c08 import event_dispatch
 
     for q in (f"{PAR}.handlers.native:XmlEventHandler.process_context", f"{PAR}.handlers.lxml:LxmlEventHandler.process_context"):
         fi = ctx.repo.func(q)
-        loop = _normalised_event_loop(fi)
-        if loop is None:
-            raise AnalysisError(f"C11.R9: event loop not found in {q}")
-        elem = unparse(loop.target.elts[1])
-        br, _ = _branches(loop)
-        reads = [n for st in br.get("END", []) for n in ast.walk(st) if isinstance(n, ast.Attribute) and n.attr == "tail" and unparse(n.value) == elem]
+        loop, _ev, el, d = event_dispatch(fi)
+        elem = el.id
+        reads = [x for n in d.specific("EventType.END") if n.ast is not None for x in ast.walk(n.ast) if isinstance(x, ast.Attribute) and x.attr == "tail" and isinstance(x.value, ast.Name) and x.value.id == elem]
         ctx.ob(f"{q.split(':')[1]}: the END branch does not read `{elem}.tail` of the element that is just ending", not reads, at=fi, node=reads[0] if reads else loop, construct="tail read at END",
                msg="iterparse guarantees an element's tail only once the NEXT event is delivered: when a read chunk of the underlying parser ends right after the end tag the tail is still None and is lost "
                    "(mixed content in documents larger than one chunk)")
